@@ -167,7 +167,7 @@ func c05Recover(w *World, r *Report) {
 		for _, b := range h.Blocks {
 			for _, in2 := range b.Instrs {
 				if c, ok := in2.(*ssa.Call); ok {
-					if bi, ok := c.Call.Value.(*ssa.Builtin); ok && bi.Name() == "recover" {
+					if bi, ok := c.Call.Value.(*ssa.Builtin); ok && nm(bi) == "recover" {
 						rec = c
 					}
 				}
@@ -350,7 +350,7 @@ func c05FirstError(w *World, r *Report) {
 
 func c05TreeErrors(w *World, r *Report) {
 	p := w.Pkg("xpath")
-	entry, ok := p.Types.Scope().Lookup("Entry").(*types.TypeName)
+	entry, ok := scopeLookup(p.Types.Scope(), "Entry").(*types.TypeName)
 	if !ok {
 		panic(undecided{"xpath.Entry"})
 	}
